@@ -6,7 +6,7 @@ ROOT = os.path.dirname(os.path.dirname(os.path.abspath(__file__)))
 TB = "rustc nightly MIR/-Zmir-opt-level=0 facts serialised by /verif/factdump; std/hashbrown/Option/Box/MaybeUninit models in rules/lib/absint.py; I_list assumed at function entry"
 P = {
  "C01": ("other", "path-sensitive typestate/guard analysis on inlined MIR",
-         "Decides the structural clauses C01.R1-R5 of DESIGN 4 (insert guarded by room on every path, admit guard with guaranteed removal in 2Q/ARC, one-partition dominance, observer agreement len/contains/peek/get/is_empty/purge, constructor capacity agreement). Necessary conditions checked on every path of every function; the numeric sufficiency of the 2Q/ARC admit arithmetic over histories is NOT decided.",
+         "Decides the structural clauses C01.R1-R8 of DESIGN 4 (insert guarded by room on every path, admit guard with guaranteed removal in 2Q/ARC, one-partition dominance, observer agreement len/contains/peek/get/is_empty/purge, constructor capacity agreement, resize stores the requested bound, clones and builders keep every bound in its own field). Necessary conditions checked on every path of every function; the numeric sufficiency of the 2Q/ARC admit arithmetic over histories is NOT decided.",
          "4 C01"),
  "C02": ("other", "node typestate + value provenance on inlined MIR paths",
          "Decides re-key protocol, index-key = own key, exactly-one swap on hit, lookup agreement and remove-hands-back-once as per-path shape rules; 'latest value across histories' follows from these plus I_list and is not itself decided.", "4 C02"),
@@ -15,7 +15,7 @@ P = {
  "C04": ("other", "node typestate exit obligations + payload move counting",
          "Every node taken out of a list is re-inserted, returned or re-boxed exactly once on every normal path; key/val of a re-boxed node each moved exactly once; no forget/leak APIs; purge/Drop reach every list. Allocator-level balance is a runtime observation and not decided.", "4 C04"),
  "C05": ("other", "panic-site ledger with discharge rules over MIR asserts/unwraps/index calls",
-         "Every panic-capable operation reachable from the public API (unwrap/expect, overflow/div/bounds asserts, Index calls) in both feature configurations must be discharged by a rule of the catalogue D1-D12 or the justified residual table; validation presence and sibling-constructor agreement. Allocation failure, cost overflow and termination are assumptions.", "3.4, 4 C05"),
+         "Every panic-capable operation reachable from the public API (unwrap/expect, overflow/div/bounds asserts, Index calls) in both feature configurations must be discharged by a rule of the catalogue D1-D12 or the justified residual table; every f64 input of a fallible constructor is accepted only under ordered comparisons with both bounds that evaluated true (NaN-rejecting), error variants carry the offending value, sibling-constructor agreement. Allocation failure, cost overflow and termination are assumptions.", "3.4, 4 C05"),
  "C06": ("other", "effect classes + provenance of LRU/MRU end + resize shape",
          "Use operations detach+attach the hit node, non-use operations reach no mutation (C13 engine); victim provenance is tail.prev, MRU is head.next; resize loop shape and counter. That repeated detach/attach realise move-to-front for every history is inferred, not checked.", "4 C06"),
  "C07": ("other", "routing conformance of event sequences per lookup class",
@@ -37,15 +37,15 @@ P = {
  "C15": ("other", "path counting of cb calls per departure + argument provenance + who-may-bypass",
          "Exactly one cb per departure path with the departing pair's key/value, none on update/read paths, callback runs only when the cache is consistent, on_evict has no writer but construct, bypassing helpers only on DefaultEvictCallback receivers.", "4 C15"),
  "C16": ("other", "field-wise clone agreement + order-preserving clone provenance",
-         "Every Clone impl rebuilds each field from the same field; RawLRU::clone enumerates the recency list least-recent-first and re-inserts with put; no pointer of self flows into the clone. Equivalence under all futures follows from equal state + determinism (C17).", "4 C16"),
+         "Every Clone impl rebuilds each field from the same field; RawLRU::clone enumerates the recency list least-recent-first and re-inserts with put; no pointer of self flows into the clone; clone_from, where overridden, is `*self = source.clone()`. Equivalence under all futures follows from equal state + determinism (C17).", "4 C16"),
  "C17": ("other", "information-flow sources: order-exposing map iteration, address observation, hash values, ambient nondeterminism",
-         "The only ways hasher/address dependent information can reach a result are enumerated and shown absent (allowed only in Drop / TinyLFU / sketch seeding); hash containers other than the node index are consumed in iteration order only when they are the caller's own argument.", "4 C17"),
+         "The only ways hasher/address dependent information can reach a result are enumerated and shown absent (allowed only in Drop / TinyLFU / sketch seeding); hash containers other than the node index are consumed in iteration order only when they are the caller's own argument; HashMap::capacity() of a node index is a sizing hint only.", "4 C17"),
  "C18": ("other", "node typestate evaluated at every user-code call site on every path (unwind-state obligation)",
-         "At every call into user code (Hash/Eq/BuildHasher/Clone/Drop/callback, incl. through HashMap) on every inlined path, the abstract node state must be unwind-safe: indexed=>linked, freed/boxed=>unreachable, reachable=>initialised, no payload owned twice. Panics inside std's map internals trusted.", "4 C18"),
+         "At every call into user code (Hash/Eq/BuildHasher/Clone/Drop/callback, incl. through HashMap) on every inlined path, the abstract node state must be unwind-safe: indexed=>linked, freed/boxed=>unreachable, reachable=>initialised, no payload owned twice. Drop guards (crate types with Drop other than the caches) are executed on normal paths and along the unwinding path out of every user-code site whose cleanup chain drops one; a guard may free a node only while it is unlinked and unindexed. Panics inside std's map internals trusted.", "4 C18"),
  "C19": ("proof", "signature/impl-header rules on type-checked item facts + rustc compile-fail witnesses with compiling twins",
          "Type-level: rustc is the checker. Every region in a public return type is tied to the receiver, &mut out needs &mut self, iterator Send/Sync bounds derived from what the type hands out; witness programs (hold-across-mutation, outlive, double-mut, cross-thread) must be rejected with the expected error code while their twins compile.", "4 C19"),
  "C20": ("other", "all-writers delta pairing on SampledLFU (used vs key_costs) + value provenance",
-         "Every mutation of key_costs is paired on the same path with the matching adjustment of used (insert uses the returned previous cost, remove subtracts the removed cost, clear zeroes, in-place update adds the difference), room_left shape, reports. i64 overflow is an assumption.", "4 C20"),
+         "Every mutation of key_costs is paired on the same path with the matching adjustment of used (insert uses the returned previous cost, remove subtracts the removed cost, clear zeroes, in-place update adds the difference), room_left shape, reports, fill_sample bounded push-only, clear total on every path. i64 overflow is an assumption.", "4 C20"),
 }
 
 def main():
